@@ -2061,21 +2061,24 @@ pub fn check(mut file: File) -> Result<Program, Vec<GoError>> {
     }
     // recursive struct of infinite size
     {
-        fn infinite(types: &HashMap<String, TypeDef>, root: &str, t: &Ty, depth: usize) -> bool {
-            if depth > 64 {
-                return true;
-            }
+        // reachability of `root` from itself through fields held by value; `seen` ends the search on cycles
+        // that do not pass through `root` (those are reported at their own structs), at any length
+        fn infinite(types: &HashMap<String, TypeDef>, root: &str, t: &Ty, seen: &mut Vec<String>) -> bool {
             match t {
                 Ty::Named(n) => {
                     if n == root {
                         return true;
                     }
+                    if seen.contains(n) {
+                        return false;
+                    }
+                    seen.push(n.clone());
                     match types.get(n) {
-                        Some(TypeDef::Struct(fs)) => fs.iter().any(|(_, ft)| infinite(types, root, ft, depth + 1)),
+                        Some(TypeDef::Struct(fs)) => fs.iter().any(|(_, ft)| infinite(types, root, ft, seen)),
                         _ => false,
                     }
                 }
-                Ty::Array(n, e) => *n > 0 && infinite(types, root, e, depth + 1),
+                Ty::Array(n, e) => *n > 0 && infinite(types, root, e, seen),
                 _ => false,
             }
         }
@@ -2083,7 +2086,7 @@ pub fn check(mut file: File) -> Result<Program, Vec<GoError>> {
         for n in names {
             if let Some(TypeDef::Struct(fs)) = ck.types.get(&n) {
                 let fs = fs.clone();
-                if fs.iter().any(|(_, ft)| infinite(&ck.types, &n, ft, 0)) {
+                if fs.iter().any(|(_, ft)| infinite(&ck.types, &n, ft, &mut Vec::new())) {
                     ck.err("types", declared.get(&n).copied().unwrap_or(0), format!("invalid recursive type {}", n));
                 }
             }
